@@ -19,7 +19,7 @@ BASE_LINE=$(tail -1 "$WT/.baseline.log" | tr -d '"' | cut -c1-200)
 cd /verif
 CHK=$(PPV_REPO="$WT" PPV_EVIDENCE_DIR="$WT/.evidence" PPV_FOUND_DIR="$WT/.found" timeout 1500 /venv/bin/python -m ppv.run "$ID" --tier quick 2>&1)
 CHK_RC=$?
-CHK_LINE=$(echo "$CHK" | grep -E '^---' | head -1 | cut -c1-240 | tr -d '"\\' )
+CHK_LINE=$(echo "$CHK" | grep -E '^---' | head -1 | cut -c1-240 | tr -d '"\\' | tr -d '\000-\011\013-\037')
 printf '{"id": "%s", "n": %s, "applies": true, "demo_clean_rc": %s, "demo_patched_rc": %s, "baseline_rc": %s, "baseline": "%s", "check_rc": %s, "check_line": "%s"}\n' \
   "$ID" "$N" "$CLEAN_RC" "$PATCHED_RC" "$BASE_RC" "$BASE_LINE" "$CHK_RC" "$CHK_LINE" > "$RES"
 git -C /repo worktree remove --force "$WT"
